@@ -73,13 +73,21 @@ fn guard<F: FnOnce() -> String>(f: F) -> String {
 struct Cfg {
     tl_tag: String,
     offset: String,
-    now: i64,
+    now: (i64, u32),
     rm_tag: String,
     targets: Vec<String>,
 }
 
-fn local(now: i64) -> chrono::DateTime<chrono::Local> {
-    chrono::Local.timestamp_opt(now, 0).single().expect("timestamp in range")
+fn local(now: (i64, u32)) -> chrono::DateTime<chrono::Local> {
+    chrono::Local.timestamp_opt(now.0, now.1).single().expect("timestamp in range")
+}
+
+// "<seconds>" or "<seconds>.<nanoseconds, 9 digits>"
+fn parse_now(s: &str) -> (i64, u32) {
+    match s.split_once('.') {
+        Some((a, b)) => (a.parse().unwrap(), b.parse().unwrap()),
+        None => (s.parse().unwrap(), 0),
+    }
 }
 
 fn lib_config(c: &Cfg) -> ChiritoriConfiguration {
@@ -180,7 +188,7 @@ fn doc_case(id: &str, f: &[&str], out: &mut String) {
     let cfg = Cfg {
         tl_tag: unhex_str(f[3]),
         offset: unhex_str(f[4]),
-        now: f[5].parse().unwrap(),
+        now: parse_now(f[5]),
         rm_tag: unhex_str(f[6]),
         targets: if f[7] == "." { vec![] } else { f[7].split(',').map(unhex_str).collect() },
     };
@@ -360,7 +368,7 @@ fn time_case(id: &str, f: &[&str], out: &mut String) {
     let mut store = String::new();
     let attrs = attr_field("to", f[0], &mut store);
     let el = element_parser::Element { name: "t", attrs };
-    let ev = TimeLimitedEvaluator { current_time: local(f[2].parse().unwrap()), time_offset: unhex_str(f[1]) };
+    let ev = TimeLimitedEvaluator { current_time: local(parse_now(f[2])), time_offset: unhex_str(f[1]) };
     let r = guard(|| if ev.is_removal(&el) { "1".into() } else { "0".into() });
     writeln!(out, "{id} evalt {r}").unwrap();
 }
